@@ -133,6 +133,33 @@ type c12Runner struct {
 	deep   bool // tree deeper than maxProofDepth: restore is expected to fail (F3)
 }
 
+// deepTree: some key path is deeper than the verifier accepts (then chunks fail to verify: F3).
+func (c *c12Runner) deepTree() bool {
+	depth := 0
+	var walk func(ptr *node.Pointer, d int)
+	walk = func(ptr *node.Pointer, d int) {
+		if ptr == nil || ptr.Hash.IsEmpty() {
+			return
+		}
+		if d > depth {
+			depth = d
+		}
+		n, err := c.srv.ndb.GetNode(c.srv.root, ptr)
+		if err != nil {
+			return
+		}
+		if in, ok := n.(*node.InternalNode); ok {
+			walk(in.Left, d+1)
+			walk(in.Right, d+1)
+			if d+1 > depth {
+				depth = d + 1
+			}
+		}
+	}
+	walk(&node.Pointer{Clean: true, Hash: c.srv.root.Hash}, 0)
+	return depth > 128
+}
+
 func (c *c12Runner) runCp(size uint64, threads uint16) {
 	s := c.srv
 	cd, err := createCheckpoint(s, size, threads)
@@ -161,6 +188,9 @@ func (c *c12Runner) runCp(size uint64, threads uint16) {
 		c.ask(fmt.Sprintf("chunks %d", size), "chunks-differ", expect(want))
 	} else {
 		c.ask(fmt.Sprintf("pchunks %d %d", size, threads), "chunks-differ", expect(want))
+	}
+	if !c.deepTree() {
+		c.ask("cover", "spec-model-chunks-do-not-cover", expect("cover ok"))
 	}
 	// (2) digests in the metadata are the digests of the files
 	for i, raw := range cd.chunks {
@@ -475,13 +505,18 @@ func (c *c12Runner) runRestore(backend string, steps []string) {
 		}
 		return
 	}
+	differSig := "spec-restored-contents-differ"
+	if aborted && strings.HasPrefix(backend, "pathbadger") {
+		// same defect as above: part of the nodes of the restarted restore is lost on Finalize
+		differSig = "pathbadger-restore-after-abort-unreadable"
+	}
 	if len(got) != len(s.keys) {
-		c.fail("spec", "spec-restored-contents-differ", fmt.Sprintf("restored database (%s) has %d keys, the original %d", backend, len(got), len(s.keys)))
+		c.fail("spec", differSig, fmt.Sprintf("restored database (%s) has %d keys, the original %d", backend, len(got), len(s.keys)))
 		return
 	}
 	for i, e := range got {
 		if !bytes.Equal(e.k, s.keys[i]) || !bytes.Equal(e.v, s.ref[string(s.keys[i])]) {
-			c.fail("spec", "spec-restored-contents-differ", fmt.Sprintf("restored database (%s): item %d is %s=%s, original %s=%s", backend, i, hx(e.k), hx(e.v), hx(s.keys[i]), hx(s.ref[string(s.keys[i])])))
+			c.fail("spec", differSig, fmt.Sprintf("restored database (%s): item %d is %s=%s, original %s=%s", backend, i, hx(e.k), hx(e.v), hx(s.keys[i]), hx(s.ref[string(s.keys[i])])))
 			return
 		}
 	}
